@@ -441,15 +441,34 @@ class Interp:
         return k
 
     def unlink_role(self, body):
-        """the list primitive that unlinks a node *in place* (handle by value, two link stores through pointers)"""
+        """the list primitive that unlinks a node *in place*: takes the node's handle by value, reads both of the node's links and
+        performs (itself or through helpers) exactly two link stores through pointers; no loop, no table effect.  A helper that only
+        stores two links it is handed (and reads none) is not the primitive: it does not say which node leaves the list."""
         k = self._unlink_cache.get(body.path)
         if k is None:
-            eff = self.ctx.eff.direct.get(body.path, {})
-            n = sum(1 for (f, _b, _s, via) in eff.get("w_entry", []) if via and f in self.r.links)
             from .cfg import cfg_of
             ins = body.j.get("inputs") or []
-            k = (n == 2 and not body.is_closure and not cfg_of(body).loops() and not eff.get("table") and not eff.get("swap_table")
-                 and not eff.get("w_cache") and bool(ins) and self.r.is_eptr_ty(ins[0]))
+            k = False
+            if not body.is_closure and bool(ins) and self.r.is_eptr_ty(ins[0]) and not cfg_of(body).loops():
+                tr = self.ctx.eff.trans(body, include_drops=False)
+                n = sum(1 for (_p, (f, _b, _s, via)) in tr.get("w_entry", []) if via and f in self.r.links)
+                if n == 2 and not tr.get("table") and not tr.get("swap_table") and not tr.get("w_cache"):
+                    read = set()
+                    for bl in body.blocks:
+                        for st_ in bl["stmts"]:
+                            if st_["k"] != "assign":
+                                continue
+                            rv = st_["rv"]
+                            pls = []
+                            if rv["k"] == "use" and rv["op"].get("k") in ("copy", "move"):
+                                pls.append(rv["op"]["place"])
+                            elif rv["k"] in ("ref", "rawptr", "copyforderef"):
+                                pls.append(rv["place"])
+                            for pl in pls:
+                                for e in pl.get("p", []):
+                                    if e["k"] == "field" and e.get("n") in self.r.links and e.get("of") == self.r.entry:
+                                        read.add(e["n"])
+                    k = len(read) >= 2
             self._unlink_cache[body.path] = k
         return k
 
@@ -1515,6 +1534,29 @@ class Joiner:
             for c in tmpl:
                 if na.entails((c[0], inst(c[1], defs_a))) and nb.entails((c[0], inst(c[1], defs_b))):
                     out.num.add(c)
+            # (3) constraint transfer: a constraint that one side knows about the old value of a changed location is kept, phrased
+            #     about the joined location, if the other side entails it for its own value of that location
+            for (nself, defs_self, nother, defs_other) in ((na, defs_a, nb, defs_b), (nb, defs_b, na, defs_a)):
+                rev = {}
+                for z in news:
+                    d = defs_self.get(z)
+                    if d is not None and not d.is_const() and len(d.t) == 1 and d.c == 0:
+                        (sn, co), = d.t.items()
+                        if co == 1 and sn not in rev and sn not in news:
+                            rev[sn] = z
+                if not rev:
+                    continue
+                n_done = 0
+                for (k, l) in list(nself.cons):
+                    hit = [sn for sn in l.t if sn in rev]
+                    if not hit or n_done > 24 or len(l.t) > 4 or len(l.t) < 3:
+                        continue        # (two-symbol relations are covered by the templates above)
+                    l2 = l
+                    for sn in hit:
+                        l2 = l2.subst(sn, Lin.sym(rev[sn]))
+                    n_done += 1
+                    if nother.entails((k, inst(l2, defs_other))) and nself.entails((k, inst(l2, defs_self))):
+                        out.num.add((k, l2))
         return out
 
     def int_locs(self, st, exclude):
